@@ -46,8 +46,10 @@ MANIFEST_ENTRY = {
                   "loss, is_held soundness, timeout bound; models tied to the code by schedule-for-schedule differential "
                   "execution of the real classes under a deterministic cooperative scheduler",
     "level_note": "C19_s3_mutex is proved only as C19_s3_mutex_partial (hypothesis: no release's DELETE lands after the "
-                  "releaser's own lease lapsed); the full statement is refuted by C19_s3_mutex_refuted = known finding "
-                  + KNOWN_KEY + ". Kernel flock exclusivity is the hypothesis flock_excl (exercised by real flock in every "
+                  "releaser's own lease lapsed; C19_s3_mutex_gap_hypothesis_insufficient shows the weaker GET-to-DELETE-gap "
+                  "hypothesis does not suffice); the full statement is refuted by C19_s3_mutex_refuted = known finding "
+                  + KNOWN_KEY + " and holds for the variant with a conditional DELETE (C19_s3_mutex_conditional_delete). "
+                  "Kernel flock exclusivity is the hypothesis flock_excl (exercised by real flock in every "
                   "run and by the multi-process stress in thorough). Zero client/server clock skew assumed. O_EXCL fallback "
                   "and S3PollingLockProvider out of scope.",
     "technique": "Coq invariant proofs over interleaving models + deterministic-scheduler differential correspondence",
@@ -363,8 +365,6 @@ def compare_s3(ctx, drivers: List[Driver], clients: List[int], lease_s: int, nam
                      "model_(locked,live)": m_sum, "impl_(locked,live)": i_sum, "model_owner": owner, "impl_owner": i_owner,
                      "model_late_delete": bool(late), "impl_late_delete": d.run.late_delete}
             bad.append(entry)
-        # the model's own verdict on mutual exclusion must agree with the implementation-side oracle
-        m_live = sum(1 for s in m_sum if s[1])
     ctx.correspondence(name, len(drivers), bad)
 
 
